@@ -11,6 +11,14 @@ TECH = ("bounded symbolic execution of the real Go code (go/ssa of /repo's worki
 
 # id -> (level text, level note, design ref)
 CLAIMED = {
+ "C08": ("Every byte string up to 3 (thorough 4) bytes is run symbolically through the real lexer step, the scanner loop, and the whole "
+         "expression parser (yacc tables + grammar actions); 19/20-digit integer tokens and 8-hex-digit \\U escapes get their own harnesses. "
+         "An uncaught Go panic on any path is a violation with concrete bytes, replayed natively. Partial: lexer contract and "
+         "token-consuming actions, not arbitrary long token sequences.",
+         "Trusted: go/ssa, symgo, regex VM model, z3 / cvc5 --solve-bv-as-int (integer-token harness). The numeric value of a "
+         "symbolic float literal is cut to an opaque value (float range errors outside). Outside: long inputs, include "
+         "resolution, compile passes, time/memory proportionality.",
+         "DESIGN.md §4 C08"),
  "C11": ("Map keys of up to 3 (thorough 4) arbitrary bytes, array indices < 1000 and every journal file name built from "
          "(node, fork, chunk?, 10-hex uniquifier?, prefix, state) are symbolic; the real makeKeySafe/url.PathEscape, forkString, "
          "ForkIdString, encodeJournalName, parseRunFilename (regex run by a symbolic Pike VM over Go's own compiled program), "
